@@ -9,7 +9,8 @@ def alphabet(keys):
     al = []
     for k in keys:
         al += [f"C 1 set {k} p{k}", f"C 2 set-safe {k} 0 s{k}", f"C 2 set-safe {k} 7 f{k}", f"C 1 get-safe {k}"]
-    al += ["C 3 arbiter", "C 3 unwatch-all", "RESOLVE 3 0 r0", "RESOLVE 3 1 r1", "RESOLVE 3 2 r2", "C 2 arbiter"]
+    # a resolution is "everything left on the line": one of the three values is a document with blanks in it
+    al += ["C 3 arbiter", "C 3 unwatch-all", "RESOLVE 3 0 r0", "RESOLVE 3 1 {\"r\": 1, \"m\": true}", "RESOLVE 3 2 r2", "C 2 arbiter"]
     return al
 
 def entries(dump, db="ta"):
@@ -48,7 +49,7 @@ class C13(Spec):
         for seq in itertools.product(al, repeat=2 if tier == "quick" else 3):
             cases.append(pre2 + list(seq))
         # structured: arbiter connected from the start, key at version 1; conflict-heavy alphabet
-        hot = ["C 2 set-safe k 0 c", "C 1 set k p", "RESOLVE 3 0 r0", "RESOLVE 3 1 r1", "RESOLVE 3 2 r2", "C 3 unwatch-all", "C 5 arbiter", "C 1 get-safe k"]
+        hot = ["C 2 set-safe k 0 c", "C 1 set k p", "RESOLVE 3 0 r0", "RESOLVE 3 1 r1", "RESOLVE 3 2 r 2  two", "C 3 unwatch-all", "C 5 arbiter", "C 1 get-safe k"]
         pre3 = SETUP + ["SESS 5", "C 5 use-db ta tok", "C 3 arbiter", "C 1 set k 0", "C 1 set k 1"]
         for seq in itertools.product(hot, repeat=4 if tier == "quick" else 5):
             c = list(pre3)
